@@ -56,9 +56,8 @@ def attr(E, obj, h, name):
         return VBM(VBI('tainted.__str__'), obj)
     if name in ('__class__',):
         return VBI(NAME)
-    from .ops import STR_METHODS
-    if name in STR_METHODS:
-        return VBM(VBI('str.' + name), h.fields['value'])       # __getattr__ delegates to the raw value
+    if hasattr(str, name):
+        return VBM(VBI('str.' + name), h.fields['value'])       # __getattr__ delegates every other str attribute to the raw value
     raise PyRaise(VExc('AttributeError', [VC(name)]))
 
 
